@@ -190,5 +190,5 @@ def _pure(pid, tier):
 
 CHECKS["C11"] = server_check
 CHECKS["C17"] = server_check
-for _p in ("C03", "C04", "C05", "C06", "C07", "C13", "C14"):
+for _p in ("C12", "C15", "C03", "C04", "C05", "C06", "C07", "C13", "C14"):
     CHECKS[_p] = _pure
